@@ -6,6 +6,7 @@ use rustc_parse::exp;
 use rustc_parse::parser::ForceCollect;
 
 use crate::parse::macros::build_stream_parser;
+use crate::parse::macros::cfg_if::parse_cfg_if;
 use crate::parse::session::ParseSess;
 
 pub(crate) fn parse_cfg_match<'a>(
@@ -65,8 +66,20 @@ fn parse_cfg_match_inner<'a>(
                     );
                 }
             };
-            if let ast::ItemKind::Mod(..) = item.kind {
-                items.push(item);
+            match item.kind {
+                ast::ItemKind::Mod(..) => items.push(item),
+                // A `cfg_if!` or `cfg_match!` directly inside an arm: the modules it declares are
+                // modules of this crate like the ones next to it.
+                ast::ItemKind::MacCall(ref mac) => match mac.path.segments.last() {
+                    Some(segment) if segment.ident.name.as_str() == "cfg_if" => {
+                        items.append(&mut parse_cfg_if(psess, mac)?);
+                    }
+                    Some(segment) if segment.ident.name.as_str() == "cfg_match" => {
+                        items.append(&mut parse_cfg_match_inner(psess, mac)?);
+                    }
+                    _ => (),
+                },
+                _ => (),
             }
         }
 
